@@ -2,3 +2,4 @@ import ZeepProofs.C13
 import ZeepProofs.C14
 import ZeepProofs.C15
 import ZeepProofs.C10
+import ZeepProofs.C06
